@@ -315,6 +315,11 @@ func (f *Fosite) authorizeRequestFromPAR(ctx context.Context, r *http.Request, r
 	// hydrate the request object
 	request.Merge(parRequest)
 	request.RedirectURI = parRequest.GetRedirectURI()
+	if request.RedirectURI != nil {
+		// the response writers modify the redirect URI: do not share it with the stored request
+		redirectURI := *request.RedirectURI
+		request.RedirectURI = &redirectURI
+	}
 	request.ResponseTypes = parRequest.GetResponseTypes()
 	request.State = parRequest.GetState()
 	request.ResponseMode = parRequest.GetResponseMode()
